@@ -125,7 +125,9 @@ def r3_equality(ctx):
 def r4_input_sums(ctx):
     r = ctx.rule("R4", "check_tx_validity: in_coins[coin.denom] := in_coins.get(coin.denom).unwrap_or(0) + coin.value for the coin resolved for this input; in_coins starts empty")
     b = ctx.body(AP + "check_tx_validity", r)
-    COIN = "try(HashMap::get($3, elem(Iterator::enumerate($2.inputs)).1))"
+    from rules.props import c04 as _c04
+    mode, coin_, idx_, COIN = _c04._input_mode(b)          # `for (i, id) in inputs.iter().enumerate()` or a loop over the inputs alone
+    SRC_ = _c04.ENUM_SRC if mode == "enumerate" else _c04.PLAIN_SRC
     ins = [(bi, e) for bi, e in q.call_exprs(b, "HashMap::insert") if sig(q.novers(e[2][0])) == "in_coins"]
     r.check(len(ins) == 1, "update", "one update of in_coins per input", "%d updates of in_coins" % len(ins))
     for bi, e in ins:
@@ -140,7 +142,7 @@ def r4_input_sums(ctx):
             return None
         l = q.lin(e[2][2], key)
         r.check(l == q.Lin({"old": 1, "value": 1}), "sum", "new total = old total + coin value", "new total = %r" % l, b.where(bi))
-        loops = [l_ for l_ in q.loop_with_source(b, lambda s: True) if sig(l_[3]) == "Iterator::enumerate($2.inputs)"]
+        loops = [l_ for l_ in q.loop_with_source(b, lambda s: True) if sig(l_[3]) == SRC_]
         if loops:
             entry = q.loop_entry(b, loops[0][0], loops[0][1])
             wo = b.reachable(entry, removed=[bi])
